@@ -4,6 +4,8 @@ import XalanModel.Containers.Deque
 import XalanModel.Containers.XList
 import XalanModel.Containers.DOMString
 import XalanModel.Containers.Bitmap
+import XalanModel.Containers.ObjCache
+import XalanModel.Containers.StringPool
 import Driver.Util
 /-
 xm_c20: replays container operation logs on the Lean models.
@@ -29,6 +31,9 @@ structure St where
   slots : Array (Option Nat) := Array.replicate 4 none     -- saved list iterators (node ids)
   strs : Array DStr := Array.replicate 4 {}
   bmps : Array Bitmap := Array.replicate 2 (Bitmap.new 0)
+  ocache : OCache Int := {}
+  ocslots : Array (Option Nat) := Array.replicate 4 none
+  pools : Array SPool := Array.replicate 2 (SPool.new 101)
 
 def nats (l : List String) : Option (List Nat) := l.mapM String.toNat?
 
@@ -394,6 +399,57 @@ def liveCells (s : St) : Nat :=
 def withLive (r : St × String) : St × String :=
   if r.2 = "mem" ∨ r.2 = "bad" then r else (r.1, r.2 ++ s!" L={liveCells r.1}")
 
+/- ---------------------------------------------------------------- object cache -/
+
+def ocStep (s : St) (op : String) (a : List Int) : St × String :=
+  let n (x : Int) : Nat := x.toNat
+  let c := s.ocache
+  match op, a with
+  | "new", [] => ({ s with ocache := {}, ocslots := Array.replicate 4 none }, "created=0")
+  | "get", [sl] =>
+    let (c', id) := c.get
+    ({ s with ocache := c', ocslots := s.ocslots.setIfInBounds (n sl) (some id) },
+      s!"r={id} n={(c'.objs.getD id []).length} created={c'.objs.length}")
+  | "put", [sl, x] =>
+    match s.ocslots.getD (n sl) none with
+    | none => (s, "mem")
+    | some id =>
+      let c' := c.put id x
+      ({ s with ocache := c' }, s!"r={id} n={(c'.objs.getD id []).length} created={c'.objs.length}")
+  | "release", [sl] =>
+    match s.ocslots.getD (n sl) none with
+    | none => (s, "mem")
+    | some id =>
+      let c' := c.release id
+      ({ s with ocache := c', ocslots := s.ocslots.setIfInBounds (n sl) none }, s!"created={c'.objs.length}")
+  | _, _ => (s, "bad")
+
+/- ---------------------------------------------------------------- string pool -/
+
+def showPool (pre : String) (p : SPool) : String :=
+  let cnts := p.bucketCounts
+  let nz := (List.range cnts.length).filterMap fun i =>
+    let c := cnts.getD i 0
+    if c = 0 then none else some s!" {i}={c}"
+  s!"{pre}size={p.count} :" ++ String.join nz
+
+def poolStep (s : St) : List String → St × String
+  | ["new", i, bc] => match nats [i, bc] with
+    | some [i, bc] => let p := SPool.new bc; ({ s with pools := s.pools.setIfInBounds i p }, showPool "" p)
+    | _ => (s, "bad")
+  | ["get", i, u] => match i.toNat?, units u with
+    | some i, some cs =>
+      match (s.pools.getD i (SPool.new 101)).get cs with
+      | none => (s, "mem")
+      | some (p, r) =>
+        let pre := match r with | some id => s!"r={id} " | none => "r=E "
+        ({ s with pools := s.pools.setIfInBounds i p }, showPool pre p)
+    | _, _ => (s, "bad")
+  | ["clear", i] => match i.toNat? with
+    | some i => let p := (s.pools.getD i (SPool.new 101)).clear; ({ s with pools := s.pools.setIfInBounds i p }, showPool "" p)
+    | none => (s, "bad")
+  | _ => (s, "bad")
+
 /- ---------------------------------------------------------------- bitmap -/
 
 def showBmp (b : Bitmap) : String :=
@@ -420,6 +476,10 @@ def step (s : St) : List String → St × String
   | "bmp" :: op :: rest => match ints rest with
     | some a => bmpStep s op a
     | none => (s, "bad")
+  | "oc" :: op :: rest => match ints rest with
+    | some a => ocStep s op a
+    | none => (s, "bad")
+  | "pool" :: rest => poolStep s rest
   | "vec" :: rest => withLive (vecStep s rest)
   | "map" :: op :: rest => match ints rest with
     | some a => withLive (mapStep s op a)
